@@ -145,8 +145,11 @@ type evFlush struct {
 	OK     bool      `json:"ok"`
 	Before []evBlock `json:"before"`
 	After  []evBlock `json:"after"`
-	Wrote  []int     `json:"wrote"` // line addresses written through the Bottom port during the flush
-	Reads  int       `json:"reads"` // read requests sent through the Bottom port during the flush
+	// Pending: lines whose eviction write-back was already queued in the cache's write buffer
+	// when the flush was requested (they go out during the flush but are not its doing)
+	Pending []int `json:"pending"`
+	Wrote   []int `json:"wrote"` // line addresses written through the Bottom port during the flush
+	Reads   int   `json:"reads"` // read requests sent through the Bottom port during the flush
 }
 type evPanic struct {
 	E   string `json:"e"`
@@ -395,6 +398,7 @@ type flushProg struct {
 	cur     *ctlStep
 	curID   uint64
 	before  []DirBlock
+	pending []uint64
 	watch   map[*Comp]*bottomWatch
 	done    bool
 	compIdx int
@@ -539,6 +543,7 @@ func (p *flushProg) step() bool {
 		}
 		p.finish(rsp)
 		p.cur = nil
+		a.progress++
 		progress = true
 	}
 	if !a.ctl.CanSend() {
@@ -556,6 +561,7 @@ func (p *flushProg) step() bool {
 	req.TrafficClass = "memcontrolprotocol.Req"
 	if s.cmd == memcontrolprotocol.CmdFlush {
 		p.before = s.comp.SnapshotDirectory()
+		p.pending = s.comp.PendingEvictions()
 		if w := p.watch[s.comp]; w != nil {
 			*w = bottomWatch{on: true}
 		}
@@ -590,6 +596,10 @@ func (p *flushProg) finish(rsp memcontrolprotocol.Rsp) {
 		OK: rsp.Success && rsp.Command == s.cmd, Before: p.blocks(p.before), After: p.blocks(s.comp.SnapshotDirectory()), Wrote: []int{}}
 	for _, x := range s.addrs {
 		rec.Addrs = append(rec.Addrs, p.rel(x))
+	}
+	rec.Pending = []int{}
+	for _, x := range p.pending {
+		rec.Pending = append(rec.Pending, p.rel(x))
 	}
 	if w := p.watch[s.comp]; w != nil {
 		w.on = false
